@@ -32,11 +32,27 @@ The evaluation function
 What the documentation leaves open is NOT decided here:
 
 * value-only gaps are returned as the marker `UNSPEC` inside the value; `same_value` treats the
-  marker as a wildcard (Appendix C `UNSPECIFIED`);
-* gaps that change control flow are *policies* (`POLICIES`): `evaluate(..., policy={...})` selects
-  one admissible behaviour; `admissible_outcomes` enumerates all of them;
+  marker as a wildcard (Appendix C `UNSPECIFIED`: the value bound by a name / override whose operand is
+  a group / sequence / optional containing a lookahead, void, EOF or an inner name; `n:()`, `n:&e`,
+  `n:~`; names inside lookaheads; how an undetermined value accumulates);
+* gaps that change control flow or the shape of the result are *policies* (`POLICIES`):
+  `evaluate(..., policy={...})` selects one admissible behaviour, `admissible_outcomes` enumerates all;
 * a cut whose propagation is not documented (`&~`, `!~`, `->~`) is tracked as "maybe"; if the
-  outcome would depend on it `evaluate` returns `Unspecified`.
+  outcome would depend on it `evaluate` returns `Unspecified`;
+* left recursion is not covered: `Unsupported` is raised and callers skip the case.
+
+API
+---
+    evaluate(desc, text, start=None, **config) -> Ok(value, endpos) | Fail() | Unspecified(why)
+    evaluate_info(...)        -> (outcome, {'matched': bool, 'open': frozenset of POLICIES reached})
+    admissible_outcomes(...)  -> [(policy, outcome)] over all admissible policies
+    same_value(expected, actual), has_unspec(v), normalize(real_value)
+    to_model(desc, **settings) -> tatsu.peg.Grammar     to_text(desc, **settings) -> grammar source
+    wellformed(desc), names_of(e), node_count(e), kinds_of(e), children(e)
+    config: whitespace (default r'\\s+'; regex; '' / None = none), nameguard (default: on iff whitespace or
+            namechars), namechars, ignorecase, keywords, comments, eol_comments, left_recursion, actions,
+            policy, group_cut_scope (syntax.rst: a group is a cut scope), deviations (see DEVIATIONS:
+            emulations of engine defects, used only to name failure classes)
 """
 from __future__ import annotations
 
